@@ -246,6 +246,7 @@ static void one_call(Builder& B, bool allow_corner) {
     char buf[256];
     // what the call is asked to build (independent of what it stores): control points of a polynomial section / the end point
     std::vector<Vec2> want_ctrl;
+    bool smooth_ctrl = false;  // control points that involve the previous section's end gradient: compared to 1e-9, not 1e-12
     bool have_end = false;
     Vec2 want_end = {0, 0};
     auto T = [&](Vec2 p) { return rel ? c + p : p; };
@@ -295,18 +296,22 @@ static void one_call(Builder& B, bool allow_corner) {
         want_ctrl = {c, T(P(d / 3, 0)), T(P(2 * d / 3, e / 2)), T(P(d, e))};
         B.desc += "cubic ";
     } else if (kind == 6) {
+        // smooth continuation: the implied first control point continues the end tangent of the previous section (a cubic's start
+        // derivative is 3 (p1 - p0))
+        Vec2 gprev = rp.subpath_array[before - 1].gradient(1, rp.trafo);
         rp.cubic_smooth(P(2 * d / 3, e / 2), P(d, e), wp, op, rel);
-        want_end = T(P(d, e));
-        have_end = true;
+        want_ctrl = {c, c + gprev / 3, T(P(2 * d / 3, e / 2)), T(P(d, e))};
+        smooth_ctrl = true;
         B.desc += "cubic_smooth ";
     } else if (kind == 7) {
         rp.quadratic(P(d / 2, 0), P(d, e), wp, op, rel);
         want_ctrl = {c, T(P(d / 2, 0)), T(P(d, e))};
         B.desc += "quadratic ";
     } else if (kind == 8) {
+        Vec2 gprev = rp.subpath_array[before - 1].gradient(1, rp.trafo);  // a quadratic's start derivative is 2 (p1 - p0)
         rp.quadratic_smooth(P(d, e / 2), wp, op, rel);
-        want_end = T(P(d, e / 2));
-        have_end = true;
+        want_ctrl = {c, c + gprev / 2, T(P(d, e / 2))};
+        smooth_ctrl = true;
         B.desc += "quadratic_smooth ";
     } else if (kind == 9) {
         std::vector<Vec2> pts = {P(d / 4, 0), P(d / 2, e / 2), P(3 * d / 4, e), P(d, e)};
@@ -394,7 +399,8 @@ static void one_call(Builder& B, bool allow_corner) {
                 B.construct_fail = buf;
             } else
                 for (size_t i = 0; i < got.size(); i++)
-                    if (fabsl(got[i].x - (ld)want_ctrl[i].x) > 1e-12L * sc || fabsl(got[i].y - (ld)want_ctrl[i].y) > 1e-12L * sc) {
+                    if (fabsl(got[i].x - (ld)want_ctrl[i].x) > (smooth_ctrl ? 1e-9L : 1e-12L) * sc ||
+                        fabsl(got[i].y - (ld)want_ctrl[i].y) > (smooth_ctrl ? 1e-9L : 1e-12L) * sc) {
                         snprintf(buf, sizeof buf, "control point %d of the section stored is (%.12Lg, %.12Lg), the call (%s, last word; %s) asks for (%.12g, %.12g)", (int)i,
                                  got[i].x, got[i].y, B.desc.c_str(), rel ? "relative" : "absolute", want_ctrl[i].x, want_ctrl[i].y);
                         B.construct_fail = buf;
@@ -1203,6 +1209,13 @@ static void run_path(uint64_t seed, uint64_t idx, const std::string& outdir, FIL
         rp.init(p0, B.n, w[0], off[1] - off[0], B.tol, 1000, tags[0]);
         em.T("init-by-separation");
     } else rp.init(p0, w.data(), off.data(), B.tol, 1000, tags.data());
+    for (uint64_t e = 0; e < B.n; e++)
+        if (B.construct_fail.empty() && (rp.elements[e].end_width != w[e] || rp.elements[e].end_offset != off[e])) {
+            char ib[200];
+            snprintf(ib, sizeof ib, "init: element %d starts with width %.12g and offset %.12g, asked for %.12g and %.12g", (int)e, rp.elements[e].end_width,
+                     rp.elements[e].end_offset, w[e], off[e]);
+            B.construct_fail = ib;
+        }
     for (uint64_t e = 0; e < B.n; e++) {
         rp.elements[e].end_type = B.el[e].end;
         rp.elements[e].end_extensions = B.el[e].ext;
